@@ -241,8 +241,59 @@ def r4_groupby(ctx):
     r.floor("C18.R4", "locus-tag groupby sites", n, 2)
 
 
+def r5_interval_merge(ctx):
+    """the interval-level merge (AbstractFeatureInterval._merge_qualifiers, used by export_qualifiers of features, transcripts
+    and CDSs when the parent's qualifiers are handed down): key-wise set union of own and parent values, both inputs
+    unchanged.  Interpreted on objects built by the analyser."""
+    from ..genekernel import gene_interp, mk_feature, mk_transcript
+    from ..lockernel import strands
+    r, repo = ctx.r, ctx.repo
+    it = gene_interp(repo, max_steps=10 ** 9)
+    S = strands(it)
+    Fr = it.enum("CDSFrame")
+    own_sets = [{"note": ["child"], "only_child": ["c1", "c2"]}, {"note": ["same"], "k": ["v"]}, {}, {"note": []}]
+    parent_sets = [{"note": ["parent", "child"], "only_parent": ["p"]}, {"note": ["same"]}, {}, None, {"only_parent": []}]
+    n = 0
+    mergef = repo.fn("gene.interval:AbstractFeatureInterval._merge_qualifiers")
+
+    def as_map(q):
+        return {str(k): sorted(str(x) for x in v) for k, v in (q or {}).items()}
+
+    for kind in ("feature", "transcript", "cds"):
+        for own in own_sets:
+            for par in parent_sets:
+                n += 1
+                if kind == "feature":
+                    o = mk_feature(it, [(3, 9)], S["PLUS"], qualifiers={k: list(v) for k, v in own.items()} or None)
+                    q = "gene.feature:FeatureInterval.export_qualifiers"
+                else:
+                    tx = mk_transcript(it, [(3, 15)], S["MINUS"], [(3, 12)], [Fr["ZERO"]], qualifiers={k: list(v) for k, v in own.items()} or None)
+                    o = tx if kind == "transcript" else tx.fields["cds"]
+                    q = "gene.transcript:TranscriptInterval.export_qualifiers" if kind == "transcript" else "gene.cds:CDSInterval.export_qualifiers"
+                pq = None if par is None else {k: it._dedupe(list(v), 0) for k, v in par.items()}
+                before_own, before_par = as_map(o.fields.get("qualifiers")), as_map(pq)
+                k, v = run(it, mergef, [pq], {}, o)
+                want = {}
+                for src_ in (before_own, before_par):
+                    for key, vals in src_.items():
+                        want[key] = sorted(set(want.get(key, [])) | set(vals))
+                desc = f"{kind} with qualifiers {own}, parent qualifiers {par}"
+                r.check(k == "ok" and as_map(v) == want, "C18.R5", mergef.qual, f"{kind}: own {sorted(own)} + parent {sorted(par) if par else par}",
+                        f"{desc}: _merge_qualifiers -> {k}:{as_map(v) if k == 'ok' else v}; the key-wise union is {want}", mergef)
+                k2, v2 = run(it, repo.fn(q), [pq], {}, o)
+                exported = as_map(v2) if k2 == "ok" else None
+                r.check(k2 == "ok" and all(set(vals) <= set(exported.get(key, [])) for key, vals in want.items()), "C18.R5", q,
+                        f"{kind}: own {sorted(own)} + parent {sorted(par) if par else par}",
+                        f"{desc}: export_qualifiers -> {k2}:{exported}; it must contain the key-wise union {want}", repo.fn(q))
+                r.check(as_map(o.fields.get("qualifiers")) == before_own and as_map(pq) == before_par, "C18.R5", mergef.qual,
+                        f"{kind}: inputs unchanged ({sorted(own)} / {sorted(par) if par else par})",
+                        f"{desc}: merging changed an input: own {as_map(o.fields.get('qualifiers'))}, parent {as_map(pq)}", mergef)
+    r.floor("C18.R5", "interval-level merges", n, 40)
+
+
 RULES = [
     ("C18.RK", rk_name_id),
     ("C18.R2", r2_tables),
     ("C18.R4", r4_groupby),
+    ("C18.R5", r5_interval_merge),
 ]
